@@ -12,7 +12,7 @@ import NetVerif.Model.FS
   read <slot> <n>                            → ok <hex> | eof | err
   seek <slot> <off> <whence>                 → ok <pos> | err | skip      (directory handle: not run)
   readdir <slot> <count>                     → ok all <names> | ok <k> | eof | err | skip
-                                               (skip: namespace changed since the handle was opened)
+                                               (skip: namespace changed since the handle's first Readdir)
   snap                                       → ok <snapshot>
 Slots number the `open` ops of the case (failed opens leave an unusable slot: `bad-handle`).
 -/
@@ -153,10 +153,14 @@ def c44Step (s : C44State) (line : String) : C44State × String :=
       | some h =>
         match s.st.handles[h]? with
         | some hd =>
-          if hd.isDir && s.stale.getD kk true then (s, "skip")
+          -- only a Readdir that continues an earlier one after the namespace changed is not run
+          if hd.isDir && s.listed.getD kk true && s.stale.getD kk true then (s, "skip")
           else
+            let first := !(s.listed.getD kk true)
             let r := c44Run s (.readdir h c)
-            ({ r.1 with listed := r.1.listed.set kk true }, c44Show c (!(s.listed.getD kk true)) r.2)
+            ({ r.1 with listed := r.1.listed.set kk true,
+                        stale := if first then r.1.stale.set kk false else r.1.stale },
+             c44Show c first r.2)
         | none => (s, "bad-handle")
     | _, _ => (s, "bad-op")
   | _ => (s, "bad-op")
